@@ -1,6 +1,7 @@
 import CV.Proofs.HttpResp
 import CV.Proofs.HttpHead
 import CV.Proofs.HttpSeq
+import CV.Proofs.HttpRespPath
 /-
 C15 - Every HTTP response is a well-formed, self-delimiting message with exact body.
 
@@ -31,8 +32,15 @@ body written for 1xx/204/304, 205 with an unsized body left undelimited) were re
 commits and the model follows the repaired code.
 Not modelled (outside the statement's product or other properties' territory): `stream = True`
 together with a non-iterator body (a TypeError loop in the framework - reported, not judged),
-body iterators that raise, request cookies echoed as Set-Cookie, generator *handlers* (C04/C06),
-request parsing (C13).
+body iterators that raise (and with them `_on_response_failure`), request cookies echoed as Set-Cookie,
+request parsing (C13), errors.py (the page text and the headers an httperror / redirect event leaves are
+parameters `ErrEnv` of the second part), the scheduling of coroutine handlers inside the core (C04/C06: which
+events reach the decision code for a handler shape is the observed table `trace`).
+Second part (below, "Responses produced through the handler-return paths"): the decision code that turns the
+result of a request handler into the one `response(res)` event - model CV.HttpResp `step` / `trace` / `answer`
+(CV/Model/HttpRespPath.lean), after three `fix:` commits found by it (error of a nested event answered twice;
+Redirect raised in a nested / coroutine handler answered without Location; error triple of a failing coroutine
+callee taken for the body).
 -/
 namespace CV.C15
 open CV.HttpResp CV.HttpSpec
@@ -153,6 +161,102 @@ theorem spec_holds_of_every_run (script : List (Req × Resp)) (hw : ∀ x ∈ sc
     checkWire (wireOf (run Conn.fresh script)) (script.map expectOf) = .ok :=
   checkWire_run script hw
 
+
+/-! ## Responses produced through the handler-return paths
+
+The application produces its result by *returning / yielding from a request handler*.  `trace p k s` are the
+events that reach circuits.web's decision code (`HTTP._on_request_success`, `_on_request_failure`,
+`_on_exception`, `Dispatcher._on_request_value_changed`; model: `step`) for handler shape `p` (plain `request`
+handler, Controller method through `expose`, coroutine yielding the pieces, `yield self.call(e)` /
+`yield self.wait(e)`, `return self.fire(e)` with a callee that answers at once or ticks later, nobody), result
+kind `k` (a value, the Response object, an httperror event) and stage `s` (all well, or an exception raised in the
+handler / after the first yield / in the callee: a Redirect, an HTTPException with any code, anything else).
+All statements are for every such combination that exists (`trace p k s = some evs`), every request shape `rq`,
+every status / headers the handler set (`app`), every body `b` and every error page text (`env`).
+Which events the core delivers for a shape (`trace`) is validated against the real event trace by the check,
+not derived here (C04/C06 are about the core). -/
+
+/-- **Exactly one response per request**, whichever way the handler hands over its result and wherever it
+raises: the decision code fires exactly one answer (each answer ends in exactly one `response(res)` event),
+and it is the expected one - the handler's result, or the page for what was raised. -/
+theorem one_response_per_request (p : Path) (k : Kind) (s : Stage) (evs : List HttpEv)
+    (h : trace p k s = some evs) :
+    (fired evs).length = 1 ∧ fired evs = [expected p s] := by
+  rw [fired_trace p k s evs h]; simp
+
+/-- **The response does not depend on the path.**  Two handlers that produce the same outcome (both a result,
+or both the same exception class / code) - along any two paths, at any two stages - put exactly the same
+bytes and the same close decision on the connection, given the same status, headers and body. -/
+theorem result_path_irrelevant (rq : Req) (env : ErrEnv) (app : App) (b : Body)
+    (p₁ p₂ : Path) (k₁ k₂ : Kind) (s₁ s₂ : Stage) (e₁ e₂ : List HttpEv)
+    (h₁ : trace p₁ k₁ s₁ = some e₁) (h₂ : trace p₂ k₂ s₂ = some e₂)
+    (hsame : expected p₁ s₁ = expected p₂ s₂) :
+    pathActs rq env app b e₁ = pathActs rq env app b e₂ := by
+  rw [pathActs_of_fired rq env app b e₁ _ (fired_trace p₁ k₁ s₁ e₁ h₁),
+      pathActs_of_fired rq env app b e₂ _ (fired_trace p₂ k₂ s₂ e₂ h₂), hsame]
+
+/-- **A result is answered as a result**: when nothing is raised (and somebody handles the request) the
+connection carries `respond` of the response the handler prepared - its status, its headers, the body `b`. -/
+theorem result_is_response (rq : Req) (env : ErrEnv) (app : App) (b : Body) (p : Path) (k : Kind)
+    (evs : List HttpEv) (h : trace p k .ok = some evs) (hp : p ≠ .nobody) :
+    pathActs rq env app b evs
+      = respond rq { status := app.status, reason := app.reason, hdrs := app.hdrs, body := b,
+                     forceClose := app.close } := by
+  rw [pathActs_of_fired rq env app b evs _ (fired_trace p k .ok evs h)]
+  cases p <;> simp_all [expected, answer]
+
+/-- **An error result is the error page, and the connection is closed.**  Whatever the path and the stage,
+an exception is answered by the response of the three-way choice (Redirect -> redirect with its code,
+HTTPException -> its code, anything else -> 500): status = that code, body = the page text (one part, sized
+- so delimited by Content-Length), and the server closes the connection after it. -/
+theorem error_result_is_error_page (rq : Req) (env : ErrEnv) (app : App) (b : Body) (p : Path) (k : Kind)
+    (s : Stage) (e : Exc) (evs : List HttpEv) (h : trace p k s = some evs) (hs : raised s = some e) :
+    ∃ r : Resp, pathActs rq env app b evs = respond rq r
+      ∧ r = answer env app b (excFired e)
+      ∧ r.status = (match e with | .redirect c => c | .http c => c | .other => 500)
+      ∧ r.body = pageBody (env.page (excFired e))
+      ∧ hasClose (pathActs rq env app b evs) = true := by
+  have hp : p ≠ .nobody := by
+    intro hp; subst hp
+    cases k <;> cases s <;> simp [trace] at h <;> simp [raised] at hs
+  have hexp : expected p s = excFired e := by
+    cases s <;> simp [raised] at hs <;> subst hs <;> cases p <;> simp_all [expected]
+  have hact := pathActs_of_fired rq env app b evs _ (fired_trace p k s evs h)
+  rw [hexp] at hact
+  refine ⟨answer env app b (excFired e), hact, rfl, ?_, ?_, ?_⟩
+  · cases e <;> simp [excFired, answer]
+  · cases e <;> simp [excFired, answer]
+  · rw [hact, hasClose_respond]
+    exact prepare_close_of_force rq _ (answer_exc_force env app b e)
+
+/-- **Whichever path produced it, the client recovers the result** (self-delimiting case; with
+`roundtrip_close` for the close-delimited one): from the bytes put on the connection for the request, followed
+by any bytes `rest`, the RFC reader recovers the status line, every header, exactly the body the handler
+handed over, and leaves `rest`. -/
+theorem path_roundtrip (rq : Req) (env : ErrEnv) (app : App) (b : Body) (p : Path) (k : Kind) (s : Stage)
+    (evs : List HttpEv) (rest : Bytes) (eof : Bool) (h : trace p k s = some evs)
+    (hw : wf rq (answer env app b (expected p s)) = true)
+    (hd : untilClose rq (answer env app b (expected p s)) = false) :
+    rfcDecode rq.isHead (bytesOf (pathActs rq env app b evs) ++ rest) eof
+      = .ok (msgOf rq (answer env app b (expected p s)), rest) := by
+  rw [pathActs_of_fired rq env app b evs _ (fired_trace p k s evs h)]
+  exact rfcDecode_delimited rq _ rest eof hw hd
+
+/-- **An error is answered once.**  For *any* sequence of events at the decision code (not only the traced
+ones): once the request is marked handled - which every answered exception does - no later event of the
+request makes the code fire another error or redirect page (only "nobody handled the request" is outside:
+it is decided before any handler runs). -/
+theorem error_answered_once (evs : List HttpEv) (hn : HttpEv.success .none ∉ evs) (e : Exc) :
+    excFired e ∉ runEvents true evs := by
+  intro hmem
+  exact excFired_ne_respond e (runEvents_handled evs hn _ hmem)
+
+/-- ... and the first exception that reaches the decision code does mark the request handled. -/
+theorem exception_marks_handled (e : Exc) :
+    (step false (.failure e)).1 = true ∧ (step false (.exception (.nested e))).1 = true
+      ∧ (step false (.success (.triple e))).1 = true ∧ (step false (.success (.valError e))).1 = true := by
+  simp [step, once]
+
 /-! ### non-vacuity: the hypotheses are satisfiable by non-trivial values -/
 
 private def rqGet : Req := { isHead := false, v11 := true, keep := true }
@@ -179,5 +283,25 @@ example : (answered [(rqGet, rStream), (rqGet, rSized), (rqGet, rStream)]).lengt
 example : (Conn.fresh).stale = none := rfl
 -- a three-request script satisfying the hypothesis of `spec_holds_of_every_run`
 example : ∀ x ∈ [(rqGet, rStream), (rq10, rStream), (rqGet, rSized)], wf x.1 x.2 = true := by decide
+
+-- handler-return paths: combinations that exist, with their events
+example : trace .exposeFireLate .value (.callee (.http 404))
+    = some [.success .valPending, .changed .other, .exception (.nested (.http 404))] := rfl
+example : trace .plain (.errorEvent 503) .ok = some [.success (.errorEvent 503)] := rfl
+example : trace .exposeCall .value (.afterYield (.redirect 303)) ≠ none ∧ trace .plainGen .value .ok ≠ none
+    ∧ expected .exposeCall (.afterYield (.redirect 303)) = expected .plain (.handler (.redirect 303)) := by decide
+example : trace .expose .responseObj .ok ≠ none ∧ Path.expose ≠ Path.nobody := by decide
+example : raised (.callee .other) = some .other ∧ trace .plainCall .value (.callee .other) ≠ none := by decide
+private def envEx : ErrEnv := { reason := fun _ => [78], page := fun _ => [112, 97, 103, 101], hdrs := fun _ h => h }
+private def appEx : App := { status := 200, reason := [79, 75], hdrs := hdrsEx, close := false }
+example : wf rqGet (answer envEx appEx (.sized [[104, 105]]) (expected .exposeFire .ok)) = true
+    ∧ untilClose rqGet (answer envEx appEx (.sized [[104, 105]]) (expected .exposeFire .ok)) = false := by decide
+example : wf rqGet (answer envEx appEx (.sized [[104, 105]]) (expected .expose (.handler (.http 404)))) = true
+    ∧ untilClose rqGet (answer envEx appEx (.sized [[104, 105]]) (expected .expose (.handler (.http 404)))) = false := by
+  decide
+example : HttpEv.success .none ∉ [HttpEv.success (.triple .other), .exception (.nested .other), .changed .ready] := by
+  decide
+-- without the handled flag the same error would be answered again (what the `fix:` commit repaired)
+example : runEvents false [.success (.triple .other), .exception (.nested .other)] = [.error 500] := by decide
 
 end CV.C15
